@@ -198,12 +198,21 @@ pub fn c08_schedules(ctx: &Ctx, out: &mut RunOut) -> Result<(), Violation> {
     for k in ["mode-t-loads", "files-with-all-orders-enumerated", "orders-enumerated-exhaustively", "baton-choice-at-contended-lock", "big-object-stream-docs", "image-fault-corrupted"] {
         ctx.count_n(k, 0); // registered so that a probe that never fires shows up as zero in the evidence
     }
-    let h = gen_history(ctx, 3, true, false, false);
+    let mut h = gen_history(ctx, 3, true, false, false);
     let last = h.revisions.len() - 1;
     selfcheck_written(&h, last);
-    let mut images: Vec<(Vec<u8>, &'static str)> = vec![(h.written.bytes.clone(), "valid")];
+    // a quarter of the cases: the same history written with deliberately wrong designations of
+    // re-defined compressed objects (C08 is claimed for all bytes, not only valid files); this is
+    // where the order among equally undesignated copies becomes observable
+    if ctx.chance(W, 1, 4, "misdesignate") {
+        h.opts.misdesignate = true;
+        h.opts.freedom = h.opts.freedom.max(1);
+        h.written = refwriter::write_history(ctx, &h.revisions, &h.opts);
+        ctx.count("misdesignated-histories");
+    }
+    let mut images: Vec<(Vec<u8>, &'static str)> = vec![(h.written.bytes.clone(), if h.opts.misdesignate { "misdesignated" } else { "valid" })];
     // fault-corrupted variants
-    let n_faulted = if thorough() { 3 } else { 1 };
+    let n_faulted = if thorough() { 3 } else { 2 };
     let hot = hot_spans(&h);
     for _ in 0..n_faulted {
         let mut img = h.written.bytes.clone();
@@ -285,6 +294,7 @@ pub fn c08_schedules(ctx: &Ctx, out: &mut RunOut) -> Result<(), Violation> {
         ctx.count(if reference.is_ok() { "image-loads-ok" } else { "image-load-error" });
         ctx.count(match *kind {
             "valid" => "image-valid",
+            "misdesignated" => "image-misdesignated",
             _ => "image-fault-corrupted",
         });
     }
